@@ -456,6 +456,9 @@ for _b in (8, 16, 32, 64):
         STD_MODELS[_p + "count_ones"] = _u(_b, lambda v, bits: bin(v % (1 << bits)).count("1"))
         STD_MODELS[_p + "rem_euclid"] = lambda self, args: _c(_ints(args)[0] % abs(_ints(args)[1]))
         STD_MODELS[_p + "div_euclid"] = lambda self, args: _c((_ints(args)[0] - _ints(args)[0] % abs(_ints(args)[1])) // _ints(args)[1])
+        STD_MODELS[_p + "abs"] = (lambda ty: lambda self, args: _c(wrap(abs(_ints(args)[0]), ty)))(_t)
+        STD_MODELS[_p + "unsigned_abs"] = lambda self, args: _c(abs(_ints(args)[0]))
+        STD_MODELS[_p + "signum"] = lambda self, args: _c((_ints(args)[0] > 0) - (_ints(args)[0] < 0))
         STD_MODELS[_p + "checked_add"] = (lambda ty: lambda self, args: _checked(lambda a, b: a + b)(self, args, ty))(_t)
         STD_MODELS[_p + "checked_sub"] = (lambda ty: lambda self, args: _checked(lambda a, b: a - b)(self, args, ty))(_t)
         STD_MODELS[_p + "checked_mul"] = (lambda ty: lambda self, args: _checked(lambda a, b: a * b)(self, args, ty))(_t)
